@@ -183,4 +183,16 @@ theorem change_spec (d : St) (fails : Nat → Bool) (path : Path) (k : FKey) (nv
     have hl := hs.2.1 trivial
     simp [cmdOf, hl, notifySubscribers, hr]
 
+theorem sendLoop_sublist (fails : Nat → Bool) : ∀ l, (Reg.sendLoop false fails l).Sublist l
+  | [] => List.Sublist.slnil
+  | a :: r => by
+    simp only [Reg.sendLoop]
+    split
+    · exact (sendLoop_sublist fails r).cons _
+    · exact (sendLoop_sublist fails r).cons₂ _
+
+theorem sendLoop_healthy : ∀ l, Reg.sendLoop false (fun _ => false) l = l
+  | [] => rfl
+  | a :: r => by simp [Reg.sendLoop, sendLoop_healthy r]
+
 end Spine.RegData
